@@ -20,6 +20,13 @@ def run(res, only=None):
         if p.returncode != 0:
             raise core.ToolError(f"geom record failed in {cfg}: {p.stderr[-1500:]}")
         core.validate_trace(res, "Trace_C02", tr, cfg)
+    # the same bound for the f64 types (and again for f32) with the polynomials defined in the specification (Trace_Poly.tla)
+    core.record_and_validate(res, "poly", [c for c in cfgs if c in ("sse2", "scalar", "coresimd", "fma")], draws=8 if res.tier == "quick" else 300,
+                             module="Trace_Poly", chunks=1 if res.tier == "quick" else 8, expect_kinds=("poly",), ops=["dot", "cross", "perp_dot"])
+    # code -> spec, relational: normalize family (unit within 16 u, parallel to the input) and the angle between parallel dense vectors
+    # (finite, 0 or pi within the arccos conditioning) on random inputs, judged by TLC with exact dyadic arithmetic (Trace_Rel.tla)
+    core.record_and_validate(res, "rel", [c for c in cfgs if c in ("sse2", "scalar", "coresimd", "libm", "fma")], draws=3 if res.tier == "quick" else 60,
+                             module="Trace_Rel", chunks=2 if res.tier == "quick" else 8, expect_kinds=("rel",), ops=["normalize", "angle_parallel"])
     res.rule = ("exact: dot/cross/perp_dot/length_squared/distance_squared/element_sum/product over pairs of integer 3-vectors in -2..2 (1/4 of the "
                 "15625 pairs in quick; all 117649 pairs over -3..3 in thorough) incl. parallel, anti-parallel, orthogonal and cancelling pairs; "
                 "length/length_recip/distance/normalize family on 12 Pythagorean tuples x power-of-two scales 2^-60..2^60 within 4 eps; the "
@@ -29,8 +36,8 @@ def run(res, only=None):
                 "input (24-bit mantissas, exponent spread 2^+-20, orthogonal / nearly parallel / opposite partners) validated by TLC against "
                 "|got - exact| <= 6 * 2^-24 * sum|terms| with arbitrary-precision integers. non-trivial = more than one non-zero component.")
     res.assumptions = ["the accuracy of acos_approx between the lattice cosines is only bounded by the 2e-4 tolerance at 9 angles",
-                       "the error bound is trace-validated for f32 types (f64 mantissas exceed what the JSON/TLC integer path carries)"]
+                       "Trace_C02 carries f32 events only; the f64 types are judged by Trace_Poly (limb-encoded significands)"]
 
 
 def replay(res, path, only=None):
-    return core.generic_replay(res, path, "geom", env_keys=())
+    return core.replay_dispatch(res, path, "geom", env_keys=())
